@@ -370,12 +370,14 @@ Fixpoint check_from (k : case) (act : bool) (s : state) (po : obs) (ws : list (Z
     naming the escrow account as recipient ([Htlc/Sound.v]: [hyps_b k = true] implies them).  A case
     outside [hyps0_b] (the same without "no parameter change") is a harness defect and is reported as a
     divergence at step 0. *)
-Definition wf_op_b (o : op) : bool :=
+Definition wf_op_b (s : state) (o : op) : bool :=
   match o with
   | Create m => negb (m_sender m =? ESC) && negb (m_sender m =? BLK)
-  | SetParams _ _ => false
+  | SetParams _ P' => negb (step_ok s o) || compat_b s P'
   | _ => true
   end.
+Fixpoint wf_run_b (s : state) (ops : list op) : bool :=
+  match ops with [] => true | o :: rest => wf_op_b s o && wf_run_b (step s o) rest end.
 (** the part of the hypotheses every case must satisfy (parameter changes are allowed in a case) *)
 Definition wf_sign_b (o : op) : bool :=
   match o with
@@ -387,7 +389,8 @@ Definition escrow_empty_b (l : ledger) : bool :=
   forallb (fun e : acct * denom * Z => negb (fst (fst e) =? ESC) || (snd e =? 0)) l.
 Definition case_ops (k : case) : list op := map (fun cd : cop * dobs => to_op k (fst cd)) (k_steps k).
 Definition hyps_b (k : case) : bool :=
-  params_ok_b (k_params k) && escrow_empty_b (bank_of k (k_obs0 k)) && forallb wf_op_b (case_ops k).
+  params_ok_b (k_params k) && escrow_empty_b (bank_of k (k_obs0 k))
+  && wf_run_b (init (k_params k) (bank_of k (k_obs0 k)) (o_time (k_obs0 k))) (case_ops k).
 Definition hyps0_b (k : case) : bool :=
   params_ok_b (k_params k) && escrow_empty_b (bank_of k (k_obs0 k)) && forallb wf_sign_b (case_ops k).
 
